@@ -128,6 +128,12 @@ static tree_node_t *mknode(fstree_t *fs, tree_node_t *parent, const char *name,
 		break;
 	case S_IFBLK:
 	case S_IFCHR:
+		/* 12 bit major, 20 bit minor: everything else does not fit */
+		if (ent->rdev > 0x0FFFFFFFFUL) {
+			free(n);
+			errno = EOVERFLOW;
+			return NULL;
+		}
 		n->data.devno = ent->rdev;
 		break;
 	case S_IFDIR:
